@@ -6,6 +6,7 @@ abandoned) the offline series checker validates anchor, step relation
 (reference point arithmetic), order, count and anchor membership.  A
 postcondition on TimeRecurrence.__init__ checks the derived interval / far
 anchor against the reference."""
+import itertools
 from fractions import Fraction as F
 
 from .. import gen
@@ -253,7 +254,7 @@ def install(ctx, repo, probes):
                 ctx.target("fmt%d/%s/%s" % (fmt, kind, iv))
     for mode in R.MODES:
         ctx.target("mode/" + mode)
-    ctx.target("anchor-24:00")
+    ctx.target("anchor-24:00", "reentrant-iteration")
 
 
 def given_anchor_instant(desc):
@@ -317,6 +318,36 @@ def run_case(ctx, repo, case):
                 consume(rec, 12)
             else:
                 consume(rec, 1000)
+        elif case["op"] == "reentrant":
+            # iteration is a pure view: pausing one pass while another runs
+            # must not change what any later pass yields
+            ctx.ev("reentrant")
+            first = [R.tp_key(p) for p in consume(rec, 60)]
+            # interleave on a FRESH object that has never completed a pass
+            rec = recgen.build(repo, desc)
+            ctx.case_rec_id = id(rec)
+            it = iter(rec)
+            head = []
+            for _ in range(min(2, len(first))):
+                head.append(R.tp_key(next(it)))
+            if first:
+                rec.get_is_valid(recgen.build(repo, desc)._end_point
+                                 or rec._start_point)
+            mid = [R.tp_key(p) for p in consume(rec, 60)]
+            rest = [R.tp_key(p) for p in itertools.islice(it, 60)]
+            for p in consume(rec, 3):
+                if rec._end_point is not None:
+                    rec.get_is_valid(rec._end_point)
+            again = [R.tp_key(p) for p in consume(rec, 60)]
+            if mid != first or again != first or (head + rest)[:60] != first:
+                ctx.violation("reentrant", "interleaved iterations of one "
+                              "recurrence changed its series: first pass %d "
+                              "points, pass during a paused iteration %d, "
+                              "resumed pass %d, later pass %d; %r" % (
+                                  len(first), len(mid), len(head + rest),
+                                  len(again), desc))
+            else:
+                ctx.cls("reentrant-iteration")
         elif case["op"] == "three":
             # the three notations of one finite exact series
             n = desc["reps"]
@@ -388,6 +419,13 @@ def workload(ctx, repo):
             case = {"op": "three", "desc": desc,
                     "second_rep": rng.choice(gen.REPS),
                     "second_off": list(gen.rand_offset(rng))}
+        elif k % 8 == 4:
+            desc = recgen.make(rng, mode, reps=rng.choice((2, 3, 5, 9)),
+                               interval="exact")
+            case = {"op": "reentrant", "desc": desc}
+            ctx.case = case
+            run_case(ctx, repo, case)
+            continue
         else:
             desc = recgen.make(rng, mode)
             if k % 6 == 1 and not recgen.is_nominal(desc):
